@@ -38,6 +38,8 @@ type GenOpts struct {
 	Capped  *int
 	// ClampBits > 0 keeps every drawn amount below 2^ClampBits.
 	ClampBits int
+	// Dynamic, if set, adjusts the weights to the current state before every draw.
+	Dynamic func(m *Machine, w map[string]int) map[string]int
 }
 
 func defaultWeights() map[string]int {
@@ -56,16 +58,28 @@ func uniform(t *rapid.T, n int, label string) int {
 	if n <= 1 {
 		return 0
 	}
-	u := rapid.Uint64().Draw(t, label)
-	u ^= u >> 30
-	u *= 0xbf58476d1ce4e5b9
-	u ^= u >> 27
-	u *= 0x94d049bb133111eb
-	u ^= u >> 31
-	return int(u % uint64(n))
+	// two raw draws: rapid returns the raw value 0 (and a few other special values) several
+	// percent of the time, which a single mixed draw would turn into a heavy bias for index 0;
+	// with two draws that bias needs both to be special at once. (0,0) still maps to index 0,
+	// so shrinking moves every choice towards its first option.
+	a := mix64(rapid.Uint64().Draw(t, label), 0xbf58476d1ce4e5b9, 0x94d049bb133111eb)
+	b := mix64(rapid.Uint64().Draw(t, label+"'"), 0xff51afd7ed558ccd, 0xc4ceb9fe1a85ec53)
+	return int((a ^ b) % uint64(n))
 }
 
-func pct(t *rapid.T, p int, label string) bool { return uniform(t, 100, label) < p }
+func mix64(u, c1, c2 uint64) uint64 {
+	u ^= u >> 30
+	u *= c1
+	u ^= u >> 27
+	u *= c2
+	u ^= u >> 31
+	return u
+}
+
+// pct is true with probability p percent. rapid draws (and shrinks to) the raw value 0 far more
+// often than any other value, and uniform maps 0 to 0: the rare branch must therefore not sit at
+// 0, otherwise every "p percent" variant is taken several percent more often than stated.
+func pct(t *rapid.T, p int, label string) bool { return uniform(t, 100, label) >= 100-p }
 
 func pow2(n uint) *big.Int { return new(big.Int).Lsh(big.NewInt(1), n) }
 
@@ -204,6 +218,9 @@ func (m *Machine) Draw(t *rapid.T, g *GenOpts) Action {
 	w := g.Weights
 	if w == nil {
 		w = defaultWeights()
+	}
+	if g.Dynamic != nil {
+		w = g.Dynamic(m, w)
 	}
 	kind := pickWeighted(t, w)
 	hostile := pct(t, g.HostilePct, "hostile?")
@@ -457,6 +474,9 @@ func (m *Machine) Draw(t *rapid.T, g *GenOpts) Action {
 		a.Key = rapid.IntRange(0, len(m.Keys)-1).Draw(t, "key")
 	case "price":
 		m.drawPrice(t, g, &a)
+		return a
+	case "avsRegister", "avsUpdate", "avsDeregister", "avsOptIn", "avsOptOut", "avsBLS", "avsTask", "avsResult", "avsChallenge":
+		m.drawAvs(t, g, &a)
 		return a
 	case "payFee":
 		a.Actor = actor()
